@@ -98,7 +98,7 @@ def _membership_condition(ctx, sem, inner):
     return None
 
 
-def rule_prerequisites(ctx, r):
+def _prerequisites_structural(ctx, r):
     from ..astutil import clone
     idx = ctx.index
     outer, inner, sem, rows = explore_schedule(ctx)
@@ -175,7 +175,7 @@ def rule_prerequisites(ctx, r):
     return wname
 
 
-def rule_memo(ctx, r, wrapper_name):
+def _memo_structural(ctx, r, wrapper_name):
     idx = ctx.index
     outer, inner, sem, rows = explore_schedule(ctx)
     ocon = f"{outer.module.relpath}::{outer.qual}"
@@ -397,6 +397,16 @@ def rule_id_lookup(ctx, r):
             f"after the submission the tracked table is {tracked}: the new id must replace the target's old entry and nothing else", m.where)
     r.check(states.get(tok("NEW")) == S("SUBMITTED"), con + "::mark", "the new id is marked SUBMITTED in memory",
             f"the new job id is not marked SUBMITTED after the submission (state table {states}): a later decision in the same run would submit the target again", m.where)
+
+
+def rule_prerequisites(ctx, r):
+    from .schedtable import _schedule_w
+    return ctx.guarded(r, _prerequisites_structural, _schedule_w(ctx), "src/gwf/scheduling.py::schedule")
+
+
+def rule_memo(ctx, r, wrapper_name):
+    from .schedtable import _schedule_w
+    return ctx.guarded(r, lambda c, rr: _memo_structural(c, rr, wrapper_name), _schedule_w(ctx), "src/gwf/scheduling.py::schedule")
 
 
 def run(ctx):
